@@ -418,7 +418,7 @@ def produced_labels(ctx) -> Tuple[Set[str], Set[str], Dict[str, str]]:
     carbon_key = None
     for n in own_nodes(cp.node):
         if isinstance(n, ast.Assign) and len(n.targets) == 1 and isinstance(n.targets[0], ast.Subscript):
-            k = const_str(n.targets[0].slice)
+            k = _key_text(ctx, cp, n.targets[0].slice)
             if k is None:
                 continue
             for v in _possible_strings(cp, n.value):
@@ -428,6 +428,45 @@ def produced_labels(ctx) -> Tuple[Set[str], Set[str], Dict[str, str]]:
     ctx.require(carbon_key is not None, "process_reaction no longer stores a constant carbon label")
     ctx._carbon_key = carbon_key
     return A, B, where
+
+
+def _key_text(ctx, f: Func, e: ast.AST) -> Optional[str]:
+    """the string a key expression denotes: a literal, a folded constant, a parameter's default, or the attribute of the
+    carbon checker that its constructor fills from a parameter with a default"""
+    from ..constfold import Folder, Unfoldable, fold_in
+
+    k = const_str(e)
+    if k is not None:
+        return k
+    try:
+        v = fold_in(f, e, ctx.prog)
+        if isinstance(v, str):
+            return v
+    except Unfoldable:
+        pass
+
+    def default_of(g: Func, pname: str) -> Optional[str]:
+        d = g.param_defaults().get(pname)
+        if d is None:
+            return None
+        try:
+            fo = Folder(g.module, None)
+            fo.prog = ctx.prog
+            v = fo.fold(d)
+            return v if isinstance(v, str) else None
+        except Unfoldable:
+            return None
+
+    if isinstance(e, ast.Name) and e.id in f.params + f.kwonly and not assignments_to(f, e.id):
+        return default_of(f, e.id)
+    if isinstance(e, ast.Attribute):
+        cls = ctx.prog.classes.get("synrbl.SynProcessor.check_carbon_balance.CheckCarbonBalance")
+        init = ctx.prog.lookup_method(cls, "__init__") if cls else None
+        if init is not None:
+            for n in own_nodes(init.node):
+                if isinstance(n, ast.Assign) and len(n.targets) == 1 and isinstance(n.targets[0], ast.Attribute) and n.targets[0].attr == e.attr and isinstance(n.value, ast.Name) and n.value.id in init.params:
+                    return default_of(init, n.value.id)
+    return None
 
 
 def _label_lists(ctx, f: Func) -> Set[str]:
@@ -608,7 +647,7 @@ def rule_e4(ctx) -> None:
     vf = prog.func("synrbl.postprocess.Validator.check")
     for node in own_nodes(vf.node):
         if isinstance(node, ast.Assign) and isinstance(node.value, ast.Subscript):
-            k = const_str(node.value.slice)
+            k = _key_text(ctx, vf, node.value.slice)
             if k is not None and isinstance(node.value.value, ast.Name):
                 lb = loop_binding(vf, node.value.value.id)
                 if any("check_carbon_balance" in unparse(it) for _, _, it in lb):
